@@ -4,7 +4,7 @@ From Coq Require Import ZArith List Bool Lia ZifyBool.
 From V Require Import Base.Int Base.IntLemmas Base.IO Spec.Gregorian.
 From V Require Model.Date Model.Time.
 From V Require Import Model.DateTime Model.C04.
-From V Require Proofs.Date Proofs.C08.
+From V Require Proofs.Date Proofs.C08 Proofs.DateIso.
 From V Require Import Proofs.C04.
 Open Scope Z_scope.
 Ltac Zify.zify_post_hook ::= Z.to_euclidean_division_equations.
@@ -78,6 +78,16 @@ Proof.
     pose proof (C08Date.repr_acc y o d Hr) as A.
     destruct (md_of_ordinal (is_leap y) o) as [m dd].
     destruct A as (A1 & A2 & _ & _ & _ & _ & A3 & A4 & A5 & _). auto.
+Qed.
+
+(** the ISO-week accessor of a nominal date reads the ISO week date of its day number
+    (Proofs/DateIso.v [d_iso_week_spec]) *)
+Lemma iso_ok_nominal d : nominal d -> iso_ok d.
+Proof.
+  intros H. destruct (repr_of_nominal d H) as [y [o Hr]].
+  destruct (DateIso.d_iso_week_spec y o d Hr) as (E & Ey & Ew). cbv zeta in E, Ey, Ew.
+  unfold iso_ok. rewrite (dn_of_repr _ _ _ Hr). eexists. split; [exact E|]. rewrite Ey, Ew.
+  destruct (iso_of_dn (dn_of_yo y o)); reflexivity.
 Qed.
 
 (** * Unconditional forms: every theorem of Proofs/C04.v applied to [date_facts_hold] *)
@@ -387,6 +397,7 @@ Definition overflowing_naive_local_u := overflowing_naive_local_spec HD.
 Definition eq_ord_instant := cmp_is_instant_order HD.
 Definition accessors_wallclock_u := accessors_wallclock HD.
 Definition iso_week_wallclock_u := iso_week_wallclock HD.
+Definition iso_week_wallclock_full a := iso_week_wallclock HD a iso_ok_nominal.
 Definition utc_local_utc_u := utc_local_utc HD.
 Definition map_local_some_u := map_local_some HD.
 Definition with_time_u := with_time_spec HD.
